@@ -180,4 +180,8 @@ theorem lookup_eq_none_iff {β} (l : List (SID × β)) (id : SID) :
     lookup l id = none ↔ id ∉ keys l := by
   rw [← lookup_isSome_iff]; cases lookup l id <;> simp
 
+/-- stream ids among the results of blocking calls that returned -/
+def streamsOfRets (rs : List (Nat × Ret)) : List Int :=
+  rs.filterMap fun r => match r.2 with | .stream id => some id | _ => none
+
 end Uquic.Proofs.Streams
